@@ -2,7 +2,8 @@
    One variational configuration = (order, lrescale, its particles' x,y,z,vx,vy,vz); the particle list has
    N = 1 entries if vc.testparticle >= 0 and N_real entries otherwise (the harness / theorem supplies that list).
    log() is libm: the model takes lg : T -> T (ln over R; a table of libm values in the binary64 run).
-   big = the double 1e100.  Not modelled: the bit-4 warning (it reads index_1st_order_a/b, which are never
+   big = the double 1e100.  (Since /repo 8a5d079 the IAS15 branch also rescales the integrator's per-particle state of the set.)
+   Not modelled: the bit-4 warning (it reads index_1st_order_a/b, which are never
    initialised for first-order configurations) and the warning texts. *)
 From Coq Require Import List ZArith Bool.
 From RV Require Import Common.Num.
@@ -11,8 +12,12 @@ Import ListNotations.
 Section Rescale.
 Context {T : Type} (N : Num T).
 Definition P6 : Type := (T * T * T * T * T * T)%type.
-Record VCfg : Type := mkVC { vc_order : nat; vc_lres : T; vc_ps : list P6 }.
-(* integ: 1 = REB_INTEGRATOR_WHFAST, 2 = REB_INTEGRATOR_EOS, 0 = any other *)
+(* vc_alloc: r->ri_ias15.N_allocated >= 3*(vc->index+N)   (IAS15 has allocated its arrays for this set);
+   vc_ias: the IAS15 per-particle state of the set, entries k = 3*index .. 3*(index+N)-1 of
+           csx, csv and of p0..p6 of b, csb, e, br, er  (37 numbers per entry; the order inside the list is irrelevant
+           to the model: every element is divided by the same scale; the harness uses k-major order) *)
+Record VCfg : Type := mkVC { vc_order : nat; vc_lres : T; vc_ps : list P6; vc_alloc : bool; vc_ias : list T }.
+(* integ: 1 = REB_INTEGRATOR_WHFAST, 2 = REB_INTEGRATOR_EOS, 3 = REB_INTEGRATOR_IAS15, 0 = any other *)
 Record Flags : Type := mkFl { integ : nat; wh_sync : bool; eos_sync : bool; safe_mode : bool;
                               warn1 : bool; warn2 : bool; recalc : bool }.
 
@@ -38,7 +43,8 @@ Definition rescale_one (lg : T -> T) (big : T) (fl : Flags) (c : VCfg) : Flags *
         else
           (mkFl (integ fl) (wh_sync fl) (eos_sync fl) (safe_mode fl) (warn1 fl) (warn2 fl)
                 (if Nat.eqb (integ fl) 1 && negb (safe_mode fl) then true else recalc fl),
-           mkVC (vc_order c) (nadd N (vc_lres c) (lg scale)) (map (div6 scale) (vc_ps c)), false)
+           mkVC (vc_order c) (nadd N (vc_lres c) (lg scale)) (map (div6 scale) (vc_ps c)) (vc_alloc c)
+                (if Nat.eqb (integ fl) 3 && vc_alloc c then map (fun v => ndiv N v scale) (vc_ias c) else vc_ias c), false)
       else
         (mkFl (integ fl) (wh_sync fl) (eos_sync fl) (safe_mode fl) (warn1 fl) true (recalc fl), c, true)
     else (fl, c, false).
@@ -52,7 +58,9 @@ Fixpoint rescale_all (lg : T -> T) (big : T) (fl : Flags) (cs : list VCfg) : Fla
       else let '(fl2, r2) := rescale_all lg big fl1 r in (fl2, c1 :: r2)
   end.
 End Rescale.
-Arguments mkVC {T} _ _ _.
+Arguments mkVC {T} _ _ _ _ _.
 Arguments vc_order {T} _.
 Arguments vc_lres {T} _.
 Arguments vc_ps {T} _.
+Arguments vc_alloc {T} _.
+Arguments vc_ias {T} _.
